@@ -11,3 +11,10 @@ func (sc *serverConn) VPSrvStartGracefulShutdown() { sc.startGracefulShutdown() 
 func (sc *serverConn) VPSrvConnInflow() (avail, unsent int32) {
 	return sc.inflow.avail, sc.inflow.unsent
 }
+
+// VPSrvResetQueued reports whether a RST_STREAM for the stream is queued but not yet
+// written. Diagnostics (coverage class) only; call only when quiescent.
+func (sc *serverConn) VPSrvResetQueued(id uint32) bool {
+	st := sc.streams[id]
+	return st != nil && st.resetQueued
+}
